@@ -66,6 +66,18 @@ func validA58(a58 []byte) (bool, error) {
 	if err := a.set58(a58); err != nil {
 		return false, err
 	}
+	// Base58 writes every leading zero byte as one leading '1': any other
+	// number of them is not an encoding of these 25 bytes.
+	zeros, ones := 0, 0
+	for zeros < len(a) && a[zeros] == 0 {
+		zeros++
+	}
+	for ones < len(a58) && a58[ones] == '1' {
+		ones++
+	}
+	if zeros != ones {
+		return false, ErrInvalidAddressLength
+	}
 	if a[0] != 0 && a[0] != 0x6f {
 		return false, ErrEncodingInvalidVersion
 	}
